@@ -758,6 +758,8 @@ addmember(struct structbuilder *b, struct qualtype mt, char *name, int align, un
 	if (mt.type->incomplete) {
 		if (mt.type->kind != TYPEARRAY)
 			error(&tok.loc, "struct member '%s' has incomplete type", name);
+		if (t->kind == TYPESTRUCT && !t->u.structunion.members)
+			error(&tok.loc, "flexible array member '%s' in a struct with no other named members", name);
 		t->flexible = true;
 	}
 	if (mt.type->flexible) {
